@@ -143,4 +143,39 @@ theorem name_reads_inside_tag (T : Bytes) (v : View) (hT : 20 + v.n ≤ T.length
 example : elfOpen ([9,0,0,0, 60,0,0,0, 1,0,0,0, 40,0,0,0, 0,0,0,0] ++ List.replicate 44 1) ⟨0, 60, 64, 40⟩ = .ok (1, 40) := by decide
 example : elfOpen ([9,0,0,0, 60,0,0,0, 5,0,0,0, 40,0,0,0, 0,0,0,0] ++ List.replicate 44 1) ⟨0, 60, 64, 40⟩ = .panic := by decide
 
+/-- the `i`-th entry as the iterator would deliver it, `none` when it is unused (skipped) or cannot be decoded -/
+def entryAt (T : Bytes) (es rem o i : Nat) : Option ElfSec :=
+  match elfSecAt T es (o + i * es) (rem - 1 - i) with
+  | .ok s => if s.typ = .unused then none else some s
+  | _ => none
+
+/-- ORDER AND COMPLETENESS: over `rem` entries that lie inside the extent the iterator yields EXACTLY the in-use entries,
+    in index order - nothing dropped, duplicated or reordered (`filterMap` over `0 .. rem-1`) -/
+theorem iter_eq_filter (T : Bytes) (es : Nat) (hes : es = 40 ∨ es = 64) :
+    ∀ rem o, o + rem * es ≤ T.length →
+      (elfIter T es rem o).1 = (List.range rem).filterMap (entryAt T es rem o) := by
+  intro rem
+  induction rem with
+  | zero => intro o _; simp [elfIter]
+  | succ n ih =>
+    intro o h
+    have hsplit : (n + 1) * es = n * es + es := by rw [Nat.add_mul, Nat.one_mul]
+    obtain ⟨s, hs, _⟩ := sec_at_ok T es o n hes (by omega)
+    have hih := ih (o + es) (by omega)
+    rw [List.range_succ_eq_map, List.filterMap_cons, List.filterMap_map]
+    have h0 : entryAt T es (n + 1) o 0 = if s.typ = .unused then none else some s := by
+      simp [entryAt, hs]
+    have htail : (entryAt T es (n + 1) o ∘ Nat.succ) = entryAt T es n (o + es) := by
+      funext i
+      simp only [Function.comp, entryAt]
+      have e1 : o + Nat.succ i * es = o + es + i * es := by rw [Nat.succ_mul]; omega
+      have e2 : n + 1 - 1 - Nat.succ i = n - 1 - i := by omega
+      rw [e1, e2]
+    unfold elfIter
+    rw [hs, h0, htail]
+    simp only
+    by_cases hu : s.typ = .unused
+    · simp [hu, hih]
+    · simp [hu, hih]
+
 end Mb2.C19
